@@ -66,8 +66,8 @@ Definition gen_greedy_select_population (pop : (list A)) (new_population : (list
   let new_population_v2 := (gen_sort_by_cost new_population MIN) in
   if (mode_eqb mode SERIAL) then match (py_enum_zip (fun agent m_v3 => (gen_greedy_select_agent agent m_v3)) self__population_v1 new_population_v2) with None => None | Some self__population_v4 =>
   (Some self__population_v4) end else
-  let executors := (py_enum_zip (fun agent m_v5 => (gen_greedy_select_agent agent m_v5)) self__population_v1 new_population_v2) in
-  match (option_map pool_perm executors) with None => None | Some self__population_v6 =>
+  match (py_enum_zip (fun agent m_v5 => (gen_greedy_select_agent agent m_v5)) self__population_v1 new_population_v2) with None => None | Some executors =>
+  let self__population_v6 := (pool_perm executors) in
   (Some self__population_v6) end.
 
 Definition gen_extend_and_trim_population (pop : (list A)) (new_population : (list A)) (population_size : nat) : (list A) :=
